@@ -13,7 +13,7 @@
                      ones, padding bits set, root <= 64 entries), bitmap k has len/2^k entries, no page is
                      free at two orders (no_nested), below max_order no two buddies are both free (merged).
    Not proved (validated on every run by the harness oracle instead, see design.d/C14.md):
-     alloc_lowest returns the LOWEST free index; Allocators::new / resize_to keep the tracker invariant. *)
+     alloc_lowest returns the LOWEST free index; Allocators::resize_to keeps the tracker invariant. *)
 From Coq Require Import List NArith Bool Lia.
 From RV Require Import Base.Bytes Alloc.Bitmap Alloc.Buddy Alloc.Region Alloc.BitmapP Alloc.TreeP Alloc.BuddyP
   Alloc.ResizeP Alloc.LowestP Alloc.SerialP Alloc.OpsP Alloc.RegionP.
@@ -32,10 +32,10 @@ Theorem bitmap_find_first_unset : forall t,
 Proof. exact bt_find_spec. Qed.
 
 Theorem bitmap_set : forall t i j, tree_ok t -> i < bt_len t -> bt_get (bt_set t i) j = (j =? i) || bt_get t j.
-Proof. intros. now apply bt_set_get. Qed.
+Proof. exact bt_set_get. Qed.
 
 Theorem bitmap_clear : forall t i j, tree_ok t -> i < bt_len t -> bt_get (bt_clear t i) j = negb (j =? i) && bt_get t j.
-Proof. intros. now apply bt_clear_get. Qed.
+Proof. exact bt_clear_get. Qed.
 
 Theorem bitmap_set_inv : forall t i, bt_ok t -> i < bt_len t -> bt_ok (bt_set t i).
 Proof. exact bt_set_ok. Qed.
@@ -133,12 +133,7 @@ Theorem serialize_roundtrip : forall a,
   let a' := buddy_from_bytes (buddy_to_vec a) in
   BInv a' /\ blen a' = blen a /\ bmax a' = bmax a /\ (forall k i, fr a' k i = fr a k i)
   /\ (forall p, pfree a' p <-> pfree a p) /\ buddy_to_vec a' = buddy_to_vec a.
-Proof.
-  intros a H Hs. pose proof H as ([Hn _] & _). cbv zeta. rewrite (buddy_roundtrip a Hs Hn).
-  destruct (norm_spec (blen a) a H) as (N1 & N2 & N3).
-  split; [exact N1|]. split; [reflexivity|]. split; [reflexivity|]. split; [exact N2|]. split; [exact N3|].
-  apply buddy_to_vec_norm.
-Qed.
+Proof. exact roundtrip_spec. Qed.
 
 (* observational basis: in good states the marks are a function of the free space (canonical form) *)
 Theorem marks_determined_by_free_space : forall L a b,
@@ -157,7 +152,7 @@ Theorem live_disjoint_step : forall s o s', good s -> step s o s' -> good s'.
 Proof. exact step_good. Qed.
 
 Theorem live_disjoint : forall n cap os s', steps (buddy_new n cap, []) os s' -> good s'.
-Proof. intros n cap os s' H. exact (steps_good _ os s' (good_new n cap) H). Qed.
+Proof. exact steps_from_new_good. Qed.
 
 (* ---------------------------------------------------------------- the region tracker *)
 
@@ -177,8 +172,72 @@ Theorem tracker_sound_record_alloc : forall m r i k,
   tinv (als m) -> tinv (als (snd (mem_record_alloc m r i k))).
 Proof. exact mem_record_alloc_tinv. Qed.
 
+(* Allocators::new establishes the tracker invariant (resize_to: validated per run, not proved) *)
+Theorem tracker_sound_new : forall l, tinv (allocators_new l).
+Proof. exact allocators_new_tinv. Qed.
+
 (* the retry loop gives up (and the file grows) only when no region has a free block of the order or above *)
 Theorem grow_only_when_full : forall al k,
   tinv al -> k < nlen (trk al) -> tracker_find_free (trk al) k = None ->
   forall r, r < nlen (regs al) -> forall j, k <= j -> ~ has_free (reg al r) j.
 Proof. exact retry_none_all_full. Qed.
+
+(* ================================================================ non-vacuity *)
+
+Definition ex_a : Buddy := buddy_new 13 16.       (* 13 pages (not a power of two) in a region of capacity 16 *)
+
+(* a valid program reaching a fragmented state: blocks of orders 0, 2, 1 handed out, one freed, one reserved,
+   saved and reloaded, then the region grown to its capacity *)
+Example ex_program :
+  exists s', steps (ex_a, []) [OAlloc 0; OAlloc 2; OAllocLowest 1; OFree 12 0; ORecord 12 0; OReload; OResize 16] s'
+             /\ blen (fst s') = 16 /\ snd s' = [(12, 0); (0, 1); (2, 2)].
+Proof.
+  eexists. split.
+  - eapply steps_cons. { apply (SAllocSome _ _ 0 12). vm_compute. reflexivity. }
+    eapply steps_cons. { apply (SAllocSome _ _ 2 2). vm_compute. reflexivity. }
+    eapply steps_cons. { apply (SLowSome _ _ 1 0). vm_compute. reflexivity. }
+    eapply steps_cons. { apply SFree. right. right. left. reflexivity. }
+    eapply steps_cons. { apply (SRecordOk _ _ 12 0). vm_compute. reflexivity. }
+    eapply steps_cons. { apply SReload. apply buddy_smallb_sound. vm_compute. reflexivity. }
+    eapply steps_cons. { apply SResize; [vm_compute; reflexivity|]. repeat constructor; vm_compute; discriminate. }
+    apply steps_nil.
+  - vm_compute. split; reflexivity.
+Qed.
+
+(* hence the hypotheses BInv / blk_used / good of the theorems above hold on that state *)
+Example ex_program_good : exists s', good s' /\ snd s' = [(12, 0); (0, 1); (2, 2)].
+Proof. destruct ex_program as [s' [H [_ E]]]. exists s'. split; [exact (live_disjoint _ _ _ _ H)|exact E]. Qed.
+
+(* a full allocator refuses; the refusal is the None branch of alloc_sound / alloc_complete *)
+Example ex_refused : fst (buddy_alloc (snd (buddy_alloc (buddy_new 2 2) 1)) 0) = None.
+Proof. vm_compute. reflexivity. Qed.
+
+(* freeing two order-0 buddies one after the other merges them back up to order 2 *)
+Example ex_merge :
+  let a1 := snd (buddy_alloc (buddy_new 4 4) 0) in
+  let a2 := snd (buddy_alloc a1 0) in
+  let a3 := snd (buddy_free a2 0 0) in
+  fst (buddy_alloc (buddy_new 4 4) 0) = Some 0 /\ fst (buddy_alloc a1 0) = Some 1
+  /\ fst (buddy_free a2 0 0) = 0 /\ fst (buddy_free a3 1 0) = 2.
+Proof. vm_compute. repeat split; reflexivity. Qed.
+
+(* resize preconditions are satisfiable across a word boundary, and violated beyond the tree capacity *)
+Example ex_resize_pre : resize_trees_pre ex_a 40 = true /\ resize_trees_pre (buddy_new 60 4096) 70 = true
+                        /\ resize_trees_pre ex_a 70 = false.
+Proof. vm_compute. repeat split; reflexivity. Qed.
+
+Example ex_roundtrip : buddy_smallb ex_a = true
+  /\ buddy_to_vec (buddy_from_bytes (buddy_to_vec ex_a)) = buddy_to_vec ex_a.
+Proof. vm_compute. split; reflexivity. Qed.
+
+(* a two-level summary tree: bits 65 and 129 cleared, the first unset one is found through the root *)
+Example ex_bitmap :
+  let t := bt_clear (bt_clear (bt_new_padded 130 130 4096) 129) 65 in
+  nlen t = 2 /\ bt_find_first_unset t = Some 65 /\ fst (bt_alloc (snd (bt_alloc t))) = Some 129.
+Proof. vm_compute. repeat split; reflexivity. Qed.
+
+(* the tracker invariant holds for a fresh three-region layout, and allocate_helper_retry serves from region 0 *)
+Example ex_tracker :
+  let al := allocators_new (mkLayout 16 2 (Some 5)) in
+  tinv al /\ fst (allocate_retry 5 al 2 false) = Some (0, 0) /\ tracker_find_free (trk al) 3 = Some 0.
+Proof. split; [apply tracker_sound_new|]. vm_compute. split; reflexivity. Qed.
